@@ -60,3 +60,75 @@ Qed.
 
 Example bin_example : bin_image [[[1; 2; 3]; [4; 5; 6]]; [[7; 8; 9]; [10; 11; 12]]] 2 = ((1, 1, 1), [1 + 2 + 4 + 5 + 7 + 8 + 10 + 11]).
 Proof. vm_compute. reflexivity. Qed.
+
+(** ---- composition: binning by b1 and then by b2 is binning by b1 * b2 ---- *)
+
+(** block sums of block sums (one axis): the b2 blocks of b1-blocks enumerate the b1 * b2 voxels of the big block once each *)
+Lemma zsum_app l1 l2 : zsum (l1 ++ l2) = zsum l1 + zsum l2.
+Proof. induction l1 as [|x l1 IH]; cbn [zsum app]; lia. Qed.
+
+Lemma zrange_succ (n : nat) : zrange (Z.of_nat (S n)) = zrange (Z.of_nat n) ++ [Z.of_nat n].
+Proof. unfold zrange. rewrite !Nat2Z.id. rewrite seq_S, map_app. reflexivity. Qed.
+
+Lemma zsum_map_shift (g : Z -> Z) (n : nat) (d : Z) :
+  zsum (map (fun a => g (d + a)) (zrange (Z.of_nat n))) = zsum (map g (map (fun a => d + a) (zrange (Z.of_nat n)))).
+Proof. rewrite map_map. reflexivity. Qed.
+
+Lemma zrange_app (m n : nat) :
+  zrange (Z.of_nat (m + n)) = zrange (Z.of_nat m) ++ map (fun a => Z.of_nat m + a) (zrange (Z.of_nat n)).
+Proof.
+  induction n as [|n IH].
+  - rewrite Nat.add_0_r. cbn. rewrite app_nil_r. reflexivity.
+  - rewrite Nat.add_succ_r, !zrange_succ, IH, map_app, app_assoc. cbn [map]. do 2 f_equal. lia.
+Qed.
+
+(** the flattening lemma: sum over c < n2 of sum over a < n1 of g (n1 c + a) = sum over x < n1 n2 of g x *)
+Lemma zsum_blocks (g : Z -> Z) (n1 n2 : nat) :
+  zsum (flat_map (fun c => map (fun a => g (Z.of_nat n1 * c + a)) (zrange (Z.of_nat n1))) (zrange (Z.of_nat n2)))
+  = zsum (map g (zrange (Z.of_nat (n1 * n2)))).
+Proof.
+  induction n2 as [|n2 IH].
+  - rewrite Nat.mul_0_r. reflexivity.
+  - rewrite zrange_succ, flat_map_app, zsum_app, IH. cbn [flat_map]. rewrite app_nil_r.
+    rewrite Nat.mul_succ_r, zrange_app, map_app, zsum_app. f_equal.
+    rewrite map_map. f_equal. apply map_ext. intro a. f_equal. lia.
+Qed.
+
+Definition bin1 (f : Z -> Z) (b : Z) (i : Z) : Z := zsum (map (fun a => f (b * i + a)) (zrange b)).
+
+Lemma bin1_compose (f : Z -> Z) (b1 b2 i : Z) : 0 < b1 -> 0 < b2 ->
+  bin1 (bin1 f b1) b2 i = bin1 f (b1 * b2) i.
+Proof.
+  intros H1 H2. unfold bin1.
+  rewrite <- (Z2Nat.id b1) by lia. rewrite <- (Z2Nat.id b2) by lia.
+  set (n1 := Z.to_nat b1). set (n2 := Z.to_nat b2).
+  replace (zrange (Z.of_nat n1 * Z.of_nat n2)) with (zrange (Z.of_nat (n1 * n2))) by (rewrite Nat2Z.inj_mul; reflexivity).
+  rewrite <- (zsum_blocks (fun x => f (Z.of_nat n1 * Z.of_nat n2 * i + x)) n1 n2).
+  assert (forall l, zsum (map (fun a => zsum (map (fun a0 => f (Z.of_nat n1 * (Z.of_nat n2 * i + a) + a0)) (zrange (Z.of_nat n1)))) l)
+                    = zsum (flat_map (fun c => map (fun a => f (Z.of_nat n1 * Z.of_nat n2 * i + (Z.of_nat n1 * c + a))) (zrange (Z.of_nat n1))) l)) as E.
+  { induction l as [|c l IHl]; [reflexivity|]. cbn [map flat_map zsum]. rewrite zsum_app, IHl. f_equal.
+    f_equal. apply map_ext. intro a0. f_equal. lia. }
+  apply E.
+Qed.
+
+(** positions and scale: binning twice points at the same place, on the same grid, as binning once by the product *)
+Lemma binning_composes (k1 k2 k : bool) (b1 b2 : Z) (scale pos : Q) : 1 < b1 -> 1 < b2 ->
+  (new_scale k2 b2 (new_scale k1 b1 scale) == new_scale k (b1 * b2) scale)%Q /\
+  (new_pos k2 b2 (new_scale k1 b1 scale) (new_pos k1 b1 scale pos) == new_pos k (b1 * b2) scale pos)%Q.
+Proof.
+  intros H1 H2. unfold new_pos, new_scale.
+  assert ((b1 =? 1) = false) as -> by (apply Z.eqb_neq; lia).
+  assert ((b2 =? 1) = false) as -> by (apply Z.eqb_neq; lia).
+  assert ((b1 * b2 =? 1) = false) as -> by (apply Z.eqb_neq; nia).
+  destruct k1, k2, k; unfold bin_tr_batch, bin_tr_single, bin_scale_batch, bin_scale_single;
+    rewrite ?inject_Z_opp, ?inject_Z_minus, ?inject_Z_mult; change (inject_Z 1) with 1%Q; split; field.
+Qed.
+
+(** the shapes agree too: dropping the remainder twice drops the same voxels as dropping it once *)
+Lemma npix_compose s b1 b2 : 0 < b1 -> 0 < b2 -> 0 <= s -> npix (npix s b1) b2 = npix s (b1 * b2).
+Proof.
+  intros H1 H2 Hs. destruct (npix_spec s b1 H1 Hs) as (E1 & _). rewrite E1.
+  destruct (npix_spec (s / b1) b2 H2 ltac:(apply Z.div_pos; lia)) as (E2 & _). rewrite E2.
+  destruct (npix_spec s (b1 * b2) ltac:(nia) Hs) as (E3 & _). rewrite E3.
+  apply Z.div_div; lia.
+Qed.
